@@ -47,8 +47,15 @@ pub fn generate(rng: &mut Rng, tier: Tier, emit: &mut dyn FnMut(String)) {
         for msb in [0u8, 1, 7, 12, 31, 32, 62, 63] {
             for t in boundary {
                 emit(format!("shard {} {} {}", n, msb, t));
+                // the same token through `FromStr` (no normalisation of i64::MIN: biased token 0)
+                emit(format!("shardraw {} {} {}", n, msb, t));
             }
         }
+    }
+    for _ in 0..2_000 * scale {
+        let n = shard_count(rng);
+        let msb = if rng.chance(1, 3) { 12 } else { rng.below(64) as u8 };
+        emit(format!("shardraw {} {} {}", n, msb, rng.i64_boundary()));
     }
     for _ in 0..20_000 * scale {
         let n = shard_count(rng);
@@ -148,6 +155,23 @@ pub fn run(case: &str, ctx: &mut Ctx) -> String {
             let expected = ((shifted as u128 * n as u128) >> 64) as u32;
             if s != expected {
                 ctx.fail(format!("shard_of = {} but ScyllaDB's algorithm gives {} (nr_shards {}, msb_ignore {}, token {})", s, expected, n, num(2), tok));
+            }
+            s.to_string()
+        }
+        "shardraw" => {
+            // the token comes from `FromStr` (sharding.rs:78-83), which does NOT normalise i64::MIN
+            let n = num(1) as u16;
+            let sharder = Sharder::new(ShardCount::new(n).unwrap(), num(2) as u8);
+            let token: Token = w[3].parse().unwrap();
+            let s = sharder.shard_of(token);
+            if s >= n as u32 {
+                ctx.fail(format!("shard_of {} >= nr_shards {}", s, n));
+            }
+            let biased = (token.value() as u64).wrapping_add(1u64 << 63);
+            let shifted = biased << (num(2) as u32 & 63);
+            let expected = ((shifted as u128 * n as u128) >> 64) as u32;
+            if s != expected {
+                ctx.fail(format!("shard_of = {} but ScyllaDB's algorithm gives {} (nr_shards {}, msb_ignore {}, raw token {})", s, expected, n, num(2), token.value()));
             }
             s.to_string()
         }
